@@ -470,6 +470,13 @@ def RTCSctpTransport(rng, inst):
             _run_coro(t._data_channel_receive(rng.choice(list(t._data_channels)), 50, b"\x02"))
         except Exception:
             pass
+    if t._data_channels and rng.random() < 0.3:
+        # a user message from the peer for one of the registered channels: text, binary, empty text, empty binary
+        pp_, data_ = rng.choice([(51, "h\u00e9".encode()), (51, b"x"), (53, b"\x00\xff"), (56, b"\x00"), (57, b"\x00")])
+        try:
+            _run_coro(t._data_channel_receive(rng.choice(list(t._data_channels)), pp_, data_))
+        except Exception:
+            pass
     if rng.random() < 0.3:
         # a FORWARD-TSN from the peer (judged by the scenario search for that unit): cumulative point moved ahead, possibly
         # across the wrap, naming some streams with the last skipped stream sequence number
